@@ -20,6 +20,9 @@ type OStr struct {
 	Msg      string // text after the prefix when MsgKnown
 	MsgKnown bool
 	Prefix   string // for addr: "table: ", "function: ", ...
+	// NoRoom marks an error raised because the call stack or the value stack is exhausted: an xpcall handler needs room
+	// to run, so whether it runs for such an error (and what xpcall then returns after false) is not fixed.
+	NoRoom bool
 }
 
 // ONum is a line number that is only known to lie within a span of source lines (a statement spread over several
